@@ -267,6 +267,14 @@ def _judge_state(zdir, day, original: dict, prev: dict | None, step_no: int, had
 
 
 def _run_case(ctx, case) -> F.Outcome:
+    if case[0] == "session":
+        # ZIDs handed out and written back by reindex runs inside ONE long-lived `zorg edit` process
+        from mc.checks import sessions
+
+        try:
+            return sessions.run_case(ctx, case, {"zids", "index-vs-files"})
+        finally:
+            H.freeze(H.rotate(_DAYS, ctx.seed)[0])
     if case[0] == "spelled":
         # the same case with the notes directory spelled differently on the command line
         H.set_dir_spelling(case[1])
@@ -386,10 +394,17 @@ def _cases(ctx):
         for i, j in ((0, 3), (8, 1), (5, 6)):
             cases.append(["spelled", "symlink", ["pair", layout, i, j], "cr", False, 0])
             cases.append(["spelled", "dotdot", ["pair", layout, j, i], "cc", True, 0])
+    from mc.checks import sessions
+
+    cases += sessions.cases(ctx)
     return cases
 
 
 def _sample(case):
+    if case[0] == "session":
+        from mc.checks import sessions
+
+        return sessions.sample(case)
     if case[0] == "spelled":
         return dict(_sample(case[2:]), notes_directory_spelled=case[1])
     return {"initial_files": build_files(case[0]), "history": case[1], "advance_day_between_steps": case[2],
